@@ -251,6 +251,10 @@ func (cur *crsr) Offset(ctx context.Context, offs int) {
 	var pos records.IteratorPos
 	pos = records.IteratorPosUnknown
 
+	// settle on the current event first: with a filter the underlying iterator may stand on an event
+	// the filter rejects, and the first Next below must step over a matching one
+	cur.Get(ctx)
+
 	bkwd := false
 	if offs < 0 {
 		bkwd = true
